@@ -30,7 +30,7 @@ from harness.core import Family, Property, use_repo
 
 use_repo()
 import numpy as np  # noqa: E402
-from glue.core import Data  # noqa: E402
+from glue.core import Data, DataCollection  # noqa: E402
 from glue.core.coordinates import AffineCoordinates, IdentityCoordinates  # noqa: E402
 from glue.core.coordinate_helpers import dependent_axes  # noqa: E402
 
@@ -542,6 +542,347 @@ def shapes_for(n, tier, rng, k):
 
 
 # ------------------------------------------------------------------------------------------
+# histories on one dataset object  (round-3 strengthening: state that survives a mutation)
+# ------------------------------------------------------------------------------------------
+# A history case is [coord, shape, ["hist", ops]]: one Data object is built from (coord, shape) and goes
+# through `ops`; every read is judged by the Lean Spec against the CURRENT (shape, coords).
+# op   : ["rw", view]                 read every world component under the view
+#      | ["rl", view]                 compute every coordinate link under the view
+#      | ["uvd", shape, cref]         Data.update_values_from_data(Data(x=zeros(shape), coords=cref))
+#      | ["setc", cref]               data.coords = cref
+#      | ["touch", kind]              kind: upc (update_components) | add | rm (unrelated component) | dc (join a
+#                                     DataCollection: hub attached) | sub (new subset)
+# cref : "same" (the very object the dataset has) | "eq" (equal but distinct object) | "none" | ["new", coord]
+
+def cref_coord(cur, cref):
+    """case encoding of the coordinates the dataset has after assigning `cref` (None = no coordinates)"""
+    if cref in ("same", "eq"):
+        return cur
+    if cref == "none":
+        return None
+    return cref[1]
+
+
+def view_valid(view, shape):
+    n = len(shape)
+    k = view[0]
+    if k == "all" or k == "basic1":
+        return n >= 1
+    if k == "basic":
+        return len(view[1]) <= n
+    if k == "arrays":
+        return len(view[2]) == n and all(0 <= i < h for ix, h in zip(view[2], shape) for i in ix)
+    if k == "mask":
+        return len(view[1]) == int(np.prod(shape))
+    return False
+
+
+def hist_valid(coord, shape, ops):
+    cur, sh = coord, list(shape)
+    for op in ops:
+        if op[0] in ("rw", "rl"):
+            if not view_valid(op[1], sh):
+                return False
+        elif op[0] == "uvd":
+            sh = list(op[1])
+            cur = cref_coord(cur, op[2])
+        elif op[0] == "setc":
+            cur = cref_coord(cur, op[1])
+        if cur is not None and coord_ndim(cur) != len(sh):
+            return False
+    return True
+
+
+def hist_line_ops(coord, shape, ops):
+    """ops with every cref resolved to the explicit coordinates (what the Lean state machine gets)"""
+    cur, sh, out = coord, list(shape), []
+    for op in ops:
+        if op[0] in ("rw", "rl"):
+            out.append([op[0], view_sx(op[1], sh)])
+        elif op[0] == "uvd":
+            cur, sh = cref_coord(cur, op[2]), list(op[1])
+            out.append(["uvd", sh, "N" if cur is None else coord_sx(cur)])
+        elif op[0] == "setc":
+            cur = cref_coord(cur, op[1])
+            out.append(["setc", "N" if cur is None else coord_sx(cur)])
+        else:
+            out.append(["touch", op[1]])
+    return out
+
+
+def read_world(d, view):
+    v = py_view(view, d.shape)
+    comps = d.components
+    out = []
+    for cid in d.world_component_ids:
+        if not any(cid is c for c in comps) or d.get_component(cid)._data is not d:
+            return "bad-world-components"
+        try:
+            out.append(canon_arr(d.get_data(cid, view=v)))
+        except IndexError:
+            out.append("index-error")
+    return out
+
+
+def read_links(d, view):
+    v = py_view(view, d.shape)
+    links = list(d._coordinate_links)
+    n = d.ndim
+    if d.coords is None and not links:
+        return []
+    if len(links) != 2 * n or len(d.world_component_ids) != n:
+        return "bad-links"
+    out = []
+    for i in range(n):
+        p2w, w2p = links[2 * i], links[2 * i + 1]
+        if not (p2w.pixel2world and not w2p.pixel2world and p2w.index == i and w2p.index == i
+                and p2w.get_to_id() is d.world_component_ids[i] and w2p.get_to_id() is d.pixel_component_ids[i]):
+            return "bad-links"
+        row = []
+        for l in (p2w, w2p):
+            row.append([int(k) for k in l.from_needed])
+            try:
+                row.append(canon_arr(l.compute(d, v)))
+            except IndexError:
+                row.append("index-error")
+        out.append(row)
+    return out
+
+
+def run_history(coord, shape, ops):
+    d = Data(x=np.zeros(tuple(shape)), coords=make_coords(coord), label="d")
+    keep = [d, d.coords]          # strong references for the whole case
+    cur = coord
+    outs = []
+    k = 0
+    for op in ops:
+        k += 1
+        try:
+            if op[0] == "rw":
+                outs.append(read_world(d, op[1]))
+                continue
+            if op[0] == "rl":
+                outs.append(read_links(d, op[1]))
+                continue
+            if op[0] in ("uvd", "setc"):
+                cref = op[2] if op[0] == "uvd" else op[1]
+                if cref == "same":
+                    obj = d.coords
+                elif cref == "eq":
+                    obj = None if cur is None else make_coords(cur)
+                elif cref == "none":
+                    obj = None
+                else:
+                    obj = make_coords(cref[1])
+                cur = cref_coord(cur, cref)
+                keep.append(obj)
+                if op[0] == "uvd":
+                    other = Data(x=np.full(tuple(op[1]), float(k)), coords=obj, label="d")
+                    keep.append(other)
+                    d.update_values_from_data(other)
+                else:
+                    d.coords = obj
+            elif op[1] == "upc":
+                d.update_components({d.id["x"]: np.full(d.shape, float(k))})
+            elif op[1] == "add":
+                d.add_component(np.full(d.shape, float(k)), "y%d" % k)
+            elif op[1] == "rm":
+                ys = [c for c in d.main_components if c.label.startswith("y")]
+                if ys:
+                    d.remove_component(ys[-1])
+            elif op[1] == "dc":
+                if d.hub is None:
+                    keep.append(DataCollection([d]))
+            elif op[1] == "sub":
+                keep.append(d.new_subset())
+            else:
+                raise ValueError(op)
+            outs.append("ok")
+        except Exception as e:        # the Spec rejects anything that is not the expected observation
+            outs.append("exc-" + type(e).__name__)
+    return outs
+
+
+# base objects of the exhaustive core:
+# (coord, shape, other shape, other coord of the same dimension, (shape, coord) of another dimension)
+def hist_bases():
+    perm = aug([[0, 2], [3, 0]], [1, 2])
+    tri = aug([[1, 1], [0, 1]], [0, 0])
+    diag2 = aug([[2, 0], [0, -1]], [[1, 2], -3])
+    blk = aug([[1, 0, 0], [0, 1, 2], [0, -1, 1]], [1, 2, 3])
+    chain = aug([[1, 1, 0], [0, 1, 1], [0, 0, 1]], [0, 0, 0])
+    one = aug([[2]], [3])
+    return [
+        (diag2, [3, 4], [2, 5], perm, ([2, 3, 2], blk)),          # separable: the broadcasting branches
+        (perm, [3, 4], [4, 3], tri, ([5], one)),
+        (tri, [2, 3], [3, 2], ["id", 2], ([2, 2, 3], chain)),
+        (["id", 2], [3, 2], [2, 4], diag2, ([3], ["id", 1])),
+        (blk, [2, 3, 2], [3, 2, 3], chain, ([3, 4], perm)),
+        (one, [4], [6], aug([[-1]], [[1, 2]]), ([2, 3], tri)),
+    ]
+
+
+def read_kinds(shape, rng, final):
+    """one view of every kind (which branch of `_calculate` / `compute` it takes)"""
+    n = len(shape)
+    size = int(np.prod(shape))
+    vs = [["all", "N"], ["all", "E"],
+          ["mask", [rng.random() < 0.5 for _ in range(size)]],
+          ["arrays", [3], [[rng.randrange(0, h) for _ in range(3)] for h in shape]],
+          ["basic", [["s", None, None, None]] * n],
+          ["basic", [["i", rng.randrange(0, h)] for h in shape]],
+          ["basic1", ["s"] + rng.choice(SLICES)],
+          ["basic", [rng.choice(items_for(shape[i], rng)) for i in range(rng.randint(1, n))]]]
+    if final == "rl":
+        vs = [v for v in vs if v[0] != "mask"]
+    return vs
+
+
+def mutation_kinds(shape, shape2, other, alt):
+    """every way (shape, coords) can change or must be kept, as op lists"""
+    muts = []
+    for sh in (shape, shape2):
+        for cref in ("same", "eq", ["new", other], "none"):
+            muts.append([["uvd", sh, cref]])
+    for cref in ("same", "eq", ["new", other], ["new", ["id", len(shape)]], "none"):
+        muts.append([["setc", cref]])
+    for kind in ("upc", "add", "dc", "sub"):
+        muts.append([["touch", kind]])
+    muts.append([["touch", "add"], ["touch", "rm"]])
+    muts.append([["setc", "none"], ["setc", ["new", other]]])                 # coords None and back
+    muts.append([["uvd", shape2, "none"], ["uvd", shape2, ["new", other]]])
+    muts.append([["uvd", shape2, "same"], ["uvd", shape, "same"]])            # there and back again
+    muts.append([["touch", "dc"], ["uvd", shape2, "same"]])
+    muts.append([["touch", "dc"], ["setc", ["new", other]]])
+    # another number of dimensions (pixel components re-created, coords go through None) - and back
+    muts.append([["uvd", alt[0], ["new", alt[1]]]])
+    muts.append([["uvd", alt[0], "none"], ["setc", ["new", alt[1]]]])
+    muts.append([["uvd", alt[0], ["new", alt[1]]], ["uvd", shape2, ["new", other]]])
+    return muts
+
+
+def shape_after(shape, ops):
+    sh = list(shape)
+    for op in ops:
+        if op[0] == "uvd":
+            sh = list(op[1])
+    return sh
+
+
+def hist_core(tier, rng, final):
+    """exhaustive short core: read kind x mutation kind x read kind on every base object; the first read
+    alternates between world components and links, the last one is the family's own kind"""
+    for coord, shape, shape2, other, alt in hist_bases():
+        for mi, mut in enumerate(mutation_kinds(shape, shape2, other, alt)):
+            sh2 = shape_after(shape, mut)
+            firsts = read_kinds(shape, rng, "rw")
+            if tier == "quick":
+                # None and Ellipsis are one path (alternate); of the optimised kinds keep full slices and mixed
+                firsts = [firsts[mi % 2], firsts[2], firsts[3], firsts[4], firsts[7]]
+            for fi, v1 in enumerate(firsts):
+                first = "rw" if (fi + mi) % 3 or v1[0] == "mask" else "rl"
+                for v2 in read_kinds(sh2, rng, final):
+                    yield [coord, shape, ["hist", [[first, v1]] + mut + [[final, v2]]]]
+
+
+def hist_pool(n, tier, rng):
+    pool = [["id", n]] + [random_dyadic(n, rng) for _ in range(2)]
+    if n >= 2:
+        pool.append(aug(rng.choice(list(itertools.islice(small_matrices(n), 200))), TRANSLATIONS[n][1]))
+    if n == 3:
+        pool += list(block_matrices(rng, 1))[-2:]
+        pool.append(aug(rng.choice(list(structured_3d())), TRANSLATIONS[3][1]))
+    shapes = shapes_for(n, tier, rng, 3) + [[rng.randint(1, 4 if tier == "quick" else 5) for _ in range(n)]]
+    return pool, shapes
+
+
+def hist_random(tier, rng, final, count):
+    """longer random histories (4-12 ops + final read) over a pool of coordinate objects per dimension"""
+    for _ in range(count):
+        pools = {}
+
+        def pool_of(n):
+            if n not in pools:
+                pools[n] = hist_pool(n, tier, rng)
+            return pools[n]
+        n = rng.choice([1, 2, 2, 2, 3, 3])
+        pool, shapes = pool_of(n)
+        coord = rng.choice(pool)
+        shape = rng.choice(shapes)
+        cur, sh, ops = coord, shape, []
+        for _ in range(rng.randint(4, 12)):
+            r = rng.random()
+            pool, shapes = pool_of(len(sh))
+            if r < 0.5:
+                kind = final if rng.random() < 0.6 else ("rw" if final == "rl" else "rl")
+                vs = [v for v in views_for(sh, rng, 3, 2, masks=(kind == "rw"))]
+                # the non-optimised views are the ones that could be served from a stale full grid
+                v = rng.choice(vs if rng.random() < 0.5 else [w for w in vs if w[0] in ("all", "mask", "arrays")])
+                ops.append([kind, v])
+            elif r < 0.68:
+                cref = rng.choice(["same", "same", "eq", "none", ["new", rng.choice(pool)]])
+                sh = rng.choice(shapes) if rng.random() < 0.7 else sh
+                ops.append(["uvd", sh, cref])
+                cur = cref_coord(cur, cref)
+            elif r < 0.73:                                  # another number of dimensions
+                n2 = rng.choice([k for k in (1, 2, 3) if k != len(sh)])
+                pool, shapes = pool_of(n2)
+                cref = rng.choice(["none", ["new", rng.choice(pool)], ["new", rng.choice(pool)]])
+                sh = rng.choice(shapes)
+                ops.append(["uvd", sh, cref])
+                cur = cref_coord(cur, cref)
+            elif r < 0.86:
+                cref = rng.choice(["same", "eq", "none", ["new", rng.choice(pool)], ["new", rng.choice(pool)]])
+                ops.append(["setc", cref])
+                cur = cref_coord(cur, cref)
+            else:
+                ops.append(["touch", rng.choice(["upc", "add", "rm", "dc", "sub"])])
+        ops.append([final, rng.choice([["all", "N"], ["all", "E"]] + list(views_for(sh, rng, 2, 1, masks=(final == "rw"))))])
+        assert hist_valid(coord, shape, ops)
+        yield [coord, shape, ["hist", ops]]
+
+
+def hist_cases(tier, rng, final):
+    yield from hist_core(tier, rng, final)
+    yield from hist_random(tier, rng, final, 250 if tier == "quick" else 6000)
+
+
+def interleave(a, b):
+    """alternate between two streams (so that a family that stops on its deadline has run both)"""
+    a, b = iter(a), iter(b)
+    for x in a:
+        yield x
+        y = next(b, None)
+        if y is None:
+            yield from a
+            return
+        yield y
+    yield from b
+
+
+def is_hist(case):
+    return isinstance(case[2], list) and case[2] and case[2][0] == "hist"
+
+
+def shrink_hist(case):
+    coord, shape, (_, ops) = case
+    for i in range(len(ops) - 1):                       # drop an op (the last read stays)
+        ops2 = ops[:i] + ops[i + 1:]
+        if hist_valid(coord, shape, ops2):
+            yield [coord, shape, ["hist", ops2]]
+    for i, op in enumerate(ops):
+        if op[0] in ("rw", "rl") and op[1][0] != "all":
+            yield [coord, shape, ["hist", ops[:i] + [[op[0], ["all", "N"]]] + ops[i + 1:]]]
+        if op[0] in ("uvd", "setc"):
+            cref = op[-1]
+            if isinstance(cref, list):
+                for c2 in shrink_coord(cref[1]):
+                    yield [coord, shape, ["hist", ops[:i] + [op[:-1] + [["new", c2]]] + ops[i + 1:]]]
+    for c2 in shrink_coord(coord):
+        yield [c2, shape, ["hist", ops]]
+
+
+# ------------------------------------------------------------------------------------------
 # families
 # ------------------------------------------------------------------------------------------
 
@@ -644,15 +985,22 @@ class _DataFamily(Family):
     def line(self, case, pyout):
         from harness.core import sx
         coord, shape, view = case
+        if is_hist(case):
+            return sx([self.name, [coord_sx(coord), shape, ["hist"] + hist_line_ops(coord, shape, view[1])], pyout])
         return sx([self.name, [coord_sx(coord), shape, view_sx(view, shape)], pyout])
 
     def signature(self, case, pyout, res):
         return {"pattern": pattern(case[0]), "view": case[2][0]}
 
     def nontrivial(self, case, po):
+        if is_hist(case) and not any(op[0] not in ("rw", "rl") for op in case[2][1]):
+            return False
         return len(case[1]) >= 2 and case[0][0] == "aff"
 
     def shrink(self, case):
+        if is_hist(case):
+            yield from shrink_hist(case)
+            return
         coord, shape, view = case
         if view[0] != "all":
             yield [coord, shape, ["all", "N"]]
@@ -672,7 +1020,7 @@ class World(_DataFamily):
     name = "world"
     budget_share = 1.6
 
-    def cases(self, tier, rng):
+    def fresh_cases(self, tier, rng):
         quick = tier == "quick"
         for coord in coords_stream(tier, rng):
             n = coord_ndim(coord)
@@ -681,8 +1029,13 @@ class World(_DataFamily):
                 for view in views_for(shape, rng, 3 if lad else 7 if quick else 14, 1 if lad else 2 if quick else 4):
                     yield [coord, shape, view]
 
+    def cases(self, tier, rng):
+        yield from interleave(self.fresh_cases(tier, rng), hist_cases(tier, rng, "rw"))
+
     def run_impl(self, case):
         coord, shape, view = case
+        if is_hist(case):
+            return run_history(coord, shape, view[1])
         d = self.data_for(coord, shape)
         v = py_view(view, shape)
         out = []
@@ -700,7 +1053,7 @@ class Link(_DataFamily):
     name = "link"
     budget_share = 1.4
 
-    def cases(self, tier, rng):
+    def fresh_cases(self, tier, rng):
         quick = tier == "quick"
         for coord in coords_stream(tier, rng):
             n = coord_ndim(coord)
@@ -709,8 +1062,13 @@ class Link(_DataFamily):
                 for view in views_for(shape, rng, 2 if lad else 5 if quick else 10, 1 if lad else 2 if quick else 4, masks=False):
                     yield [coord, shape, view]
 
+    def cases(self, tier, rng):
+        yield from interleave(self.fresh_cases(tier, rng), hist_cases(tier, rng, "rl"))
+
     def run_impl(self, case):
         coord, shape, view = case
+        if is_hist(case):
+            return run_history(coord, shape, view[1])
         d = self.data_for(coord, shape)
         v = py_view(view, shape)
         links = list(d._coordinate_links)
@@ -735,7 +1093,7 @@ class Link(_DataFamily):
 PROP = Property(
     id="C15",
     title="World coordinates, their links and inverses agree with the coordinate object",
-    theorems=["C15.w2p_p2w", "C15.w2p_p2w_coord", "C15.inverse_le3", "C15.det_ne_zero_iff", "C15.mkAffine_wf", "C15.coupledAxes_closed", "C15.need_subset_dep", "C15.need_subset_dep_of_diag", "C15.world_eq_direct", "C15.world_eq_direct_partial", "C15.world_eq_direct_pinned_of_diag", "C15.w2p_shortcut", "C15.w2p_shortcut_partial", "C15.inverse_pattern_covered", "C15.corr_matrix_exact", "C15.dep_scale_invariant", "C15.links_eq_direct", "C15.link_p2w_eq_direct_partial", "C15.identity_coords", "C15.permuted_axes_wrong", "C15.triangular_inverse_wrong", "C15.chain_from_needed_wrong"],
+    theorems=["C15.w2p_p2w", "C15.w2p_p2w_coord", "C15.inverse_le3", "C15.det_ne_zero_iff", "C15.mkAffine_wf", "C15.coupledAxes_closed", "C15.need_subset_dep", "C15.need_subset_dep_of_diag", "C15.world_eq_direct", "C15.world_eq_direct_partial", "C15.world_eq_direct_pinned_of_diag", "C15.w2p_shortcut", "C15.w2p_shortcut_partial", "C15.inverse_pattern_covered", "C15.corr_matrix_exact", "C15.dep_scale_invariant", "C15.links_eq_direct", "C15.link_p2w_eq_direct_partial", "C15.identity_coords", "C15.world_eq_direct_history", "C15.history_read_current_state", "C15.cached_grid_survives_shape_change", "C15.permuted_axes_wrong", "C15.triangular_inverse_wrong", "C15.chain_from_needed_wrong"],
     families=[Xform(), World(), Link()],
     trusted_base=["IEEE binary64 arithmetic of numpy matmul (any summation order, with or without FMA) and of LAPACK gesv behind np.linalg.inv: doubles are sent to Lean as exact rationals and accepted by rules computed by the Lean driver from the exact case (lean/GlueVerif/Model/C15Float.lean): forward values exact whenever all partial sums are representable, else within (n+2) 2^-53 sum|terms|; inverse values within 32 * 2^-53 * |N| W |N| |y| (first-order Higham bound for Gaussian elimination with partial pivoting, W = P^T|L||U| computed exactly over Q on every near-tied pivot path; constant calibrated: worst observed 2.4 of 32). No absolute tolerance.",
                   "numpy meshgrid / unbroadcast / broadcast_arrays / broadcast_to / basic and advanced indexing are modelled by their value semantics (Model/Coords.lean: viewPoints, subst)"],
